@@ -17,21 +17,21 @@ const (
 
 // control part of the local state
 const (
-	rjvSpecDead      = iota // rejected
-	rjvSpecDone             // the top-level value has ended (absorbing)
-	rjvSpecBefore           // before a value (leading whitespace); the context says where
-	rjvSpecTravArr          // traversal entry: whitespace, then `null` or `[`
-	rjvSpecTravObj          // traversal entry: whitespace, then `null` or `{`
-	rjvSpecArrFirst         // after `[`
-	rjvSpecArrValue         // after `,` in an array
-	rjvSpecArrAfter         // after a value in an array
-	rjvSpecObjFirst         // after `{`
-	rjvSpecObjKey           // after `,` in an object
-	rjvSpecObjColon         // after a key
-	rjvSpecObjValue         // after `:`
-	rjvSpecObjAfter         // after a member value
-	rjvSpecInValue          // inside a scalar token that is a value; lex says where, ctx says in what
-	rjvSpecInKey            // inside a key string
+	rjvSpecDead     = iota // rejected
+	rjvSpecDone            // the top-level value has ended (absorbing)
+	rjvSpecBefore          // before a value (leading whitespace); the context says where
+	rjvSpecTravArr         // traversal entry: whitespace, then `null` or `[`
+	rjvSpecTravObj         // traversal entry: whitespace, then `null` or `{`
+	rjvSpecArrFirst        // after `[`
+	rjvSpecArrValue        // after `,` in an array
+	rjvSpecArrAfter        // after a value in an array
+	rjvSpecObjFirst        // after `{`
+	rjvSpecObjKey          // after `,` in an object
+	rjvSpecObjColon        // after a key
+	rjvSpecObjValue        // after `:`
+	rjvSpecObjAfter        // after a member value
+	rjvSpecInValue         // inside a scalar token that is a value; lex says where, ctx says in what
+	rjvSpecInKey           // inside a key string
 )
 
 // lexical part
